@@ -336,7 +336,64 @@ def _direction(ctx) -> None:
            f"returns `{[nun(x.value) for x in r]}`", ivm.loc(ivm.func("Interval.__abs__")))
 
 
+def _totals_tabulate(ctx) -> bool | None:
+    """TOTALS.tabulated: total_minutes / total_hours / total_days / total_weeks and in_weeks .. in_seconds run by the checker's interpreter on
+    Duration instance stubs (rules/durstub.py) of both signs - whole units, sub-second parts, lengths near 2**53 us - against
+    total_seconds() of the standard library divided by the unit (to the last bit or the next: the two-step division of weeks may differ from
+    one division by 604800 in the last place), in_*() being that value truncated toward zero."""
+    import datetime as _dt
+    import math
+    from ..rules import durstub, minieval
+    m = pmod("duration")
+    try:
+        w = durstub.World(m)
+    except durstub.ERRORS as e:
+        ctx.unverified("TOTALS.tabulated", "Duration.total_*", f"outside the checker's interpreter: {type(e).__name__}: {e}", m.rel)
+        return None
+    unit = {"minutes": 60, "hours": 3600, "days": 86400, "weeks": 604800, "seconds": 1}
+    vals = [0, 1, 10**6, 90 * 10**6, 3600 * 10**6, 86400 * 10**6, 14 * 86400 * 10**6, 36 * 3600 * 10**6 + 1, 59999999, 604800 * 10**6 - 1, 123456789012345, 2**53 + 3, 7 * 86400 * 10**6 * 1000 + 5 * 10**5]
+    bad, n = [], 0
+    try:
+        insts = [(f"Duration({us} us)", w.normalised(0, 0, us), _dt.timedelta(microseconds=us)) for us in vals + [-v for v in vals if v]]
+        # years and months count in the length (365 / 30 days); and an Interval overrides the component properties with its calendar
+        # components, which need not add up to the length: totals must come from total_seconds(), not from components
+        for y, mo, us in ((1, 0, 0), (0, 2, 3 * 86400 * 10**6), (-1, 0, -5 * 10**6), (2, 11, 90 * 10**6 + 1)):
+            insts.append((f"Duration(years={y}, months={mo}, {us} us)", w.normalised(y, mo, us), _dt.timedelta(days=365 * y + 30 * mo, microseconds=us)))
+        for us in (84600 * 10**6, -3 * 86400 * 10**6 - 5400 * 10**6):
+            d = w.normalised(0, 0, us)
+            vars(d).update(hours=5, minutes=17, remaining_seconds=33, weeks=1, remaining_days=2, microseconds=7, _days=40, years=0, months=1)
+            insts.append((f"an Interval of {us} us whose calendar components differ from its length", d, _dt.timedelta(microseconds=us)))
+        for label, d, td in insts:
+            secs = td.total_seconds()
+            for u in ("minutes", "hours", "days", "weeks"):
+                if f"total_{u}" not in w.meths:
+                    continue
+                n += 1
+                got = w.call(f"total_{u}", [d])
+                want = secs / unit[u]
+                if not isinstance(got, float) or not (got == want or math.nextafter(got, want) == want):
+                    bad.append(f"{label}.total_{u}() = {got!r} (total_seconds() / {unit[u]} = {want!r})")
+            for u in ("weeks", "days", "hours", "minutes", "seconds"):
+                if f"in_{u}" not in w.meths:
+                    continue
+                n += 1
+                got = w.call(f"in_{u}", [d])
+                want = int(secs / unit[u])
+                if abs(secs / unit[u] - round(secs / unit[u])) < 1e-9 and abs(secs / unit[u]) > 2**40:
+                    continue        # at a unit boundary of a very long duration the last bit decides: not a reference value
+                if got != want or not isinstance(got, int):
+                    bad.append(f"{label}.in_{u}() = {got!r} (total_seconds() / {unit[u]} truncated toward zero = {want})")
+    except durstub.ERRORS + (minieval.Raised, ValueError) as e:
+        ctx.unverified("TOTALS.tabulated", "Duration.total_*", f"outside the checker's interpreter: {type(e).__name__}: {e}", m.rel)
+        return None
+    ctx.ob("TOTALS.tabulated", "Duration.total_* / in_*", not bad, f"{n} evaluations: " + (f"wrong: {bad[:3]}" if bad else "total_seconds() divided by the unit; in_*() truncated toward zero"), m.rel)
+    if not bad:
+        ctx.established(("UNITS.total", "TRUNC.in"), "Duration.", "TOTALS.tabulated")
+    return not bad
+
+
 def _totals(ctx) -> None:
+    _totals_tabulate(ctx)
     m = pmod("duration")
     want = {"total_minutes": ("self.total_seconds()", 60), "total_hours": ("self.total_seconds()", 3600),
             "total_days": ("self.total_seconds()", 86400), "total_weeks": ("self.total_days()", 7)}
